@@ -16,7 +16,7 @@ ASSUMPTIONS = ["Trio's run loop order is controlled through trio._core._run._r a
 REAL_VS_STUB = {"real": ["stackscope trio glue", "trio 0.34 run loop, nurseries, to_thread/from_thread, real worker threads"], "stub": ["generated task functions", "seeded batch order", "locks parking the workers"]}
 RARE_PROBES = ["blocked_in_aexit", "thread_hops_checked", "stubs_checked"]
 LEGS = [
-    {"name": "trio312", "python": "3.12", "quick": 1500, "thorough": 30000, "quick_s": 50, "thorough_s": 420, "run_timeout": 120},
+    {"name": "trio312", "python": "3.12", "quick": 1500, "thorough": 30000, "quick_s": 50, "thorough_s": 420, "run_timeout": 120, "hang_in_stackscope_is_violation": True},
 ]
 
 
